@@ -122,6 +122,26 @@ static void cmp_text(Ctx &c, const char *route, const ST::string &got, const std
         c.fail(strf("%s:terminator:%s", route, k.c_str()), strf("%s result is not NUL-terminated", call.c_str()));
 }
 
+// ---------------------------------------------------------------- the public digit engines as objects
+// ST::uint_formatter (and float_formatter, see C13 / C18) are public: text() is documented to be NUL-terminated, whatever the storage
+// of the object held before (here 0x77 everywhere), and to stay valid for size() characters
+template <class F, class V>
+static void check_formatter_object(Ctx &c, const char *tname, V v, int base, bool upper, const std::string &want)
+{
+    alignas(16) unsigned char mem[sizeof(F) + 64];
+    memset(mem, 0x77, sizeof mem);
+    F *f = new (mem + 16) F();
+    f->format(v, base, upper);
+    VF_COUNT("ops");
+    VF_COUNT("validated");
+    std::string got(f->text(), f->size());
+    if (got != want) c.fail(strf("%s(object):text", tname), strf("format(%s, %d) gives %s, expected %s", i128s((__int128)v).c_str(), base, vf::vis(got).c_str(), want.c_str()));
+    else if (f->text()[f->size()] != 0 || strlen(f->text()) != f->size())
+        c.fail(strf("%s(object):text()-not-terminated", tname),
+               strf("format(%s, %d): size() is %zu, strlen(text()) is %zu in storage that held 0x77 before", i128s((__int128)v).c_str(), base, f->size(), strlen(f->text())));
+    f->~F();
+}
+
 // from_int / from_uint in one base and case + parse-back of the canonical text
 template <class T>
 static void check_from_and_back(Ctx &c, T v, int base, bool upper)
@@ -142,6 +162,8 @@ static void check_from_and_back(Ctx &c, T v, int base, bool upper)
             VF_COUNT("ops");
             cmp_text(c, route, s64, want, k, strf("from_%sint64(%s, %d)", sgn ? "" : "u", i128s(v).c_str(), base));
         }
+        // the digit engine itself, as an object in dirty storage
+        if constexpr (!std::is_signed<T>::value && sizeof(T) >= 4) check_formatter_object<ST::uint_formatter<T>>(c, "uint_formatter", v, base, upper, want);
         // trailing arguments left to their defaults: upper_case = false, base = 10
         if (!upper) {
             ST::string sd;
